@@ -1,5 +1,5 @@
-(** Model of the crate's own I/O layer used without the standard library (io_nostd.rs): [Read::read_exact],
-    [Read::read_to_end], [Take], [Read for &[u8]], [Write::write_all], [Write for &mut [u8]] and [Vec<u8>].
+(** Model of the crate's own I/O layer used without the standard library (io_nostd.rs): [Read::io_read_exact],
+    [Read::read_to_end], [Take], [Read for &[u8]], [Write::io_write_all], [Write for &mut [u8]] and [Vec<u8>].
     An inner reader / writer is a script: what each successive call does. *)
 Require Import Zrs.lib.RsPrelude.
 Open Scope Z_scope.
@@ -25,8 +25,8 @@ Definition sr_read (r : sreader) (space : nat) : (list Z + ioerr) * sreader :=
 Definition slice_read (s : list Z) (space : nat) : list Z * list Z :=
   let size := Nat.min (length s) space in (firstn size s, skipn size s).
 
-(** [read_exact]: the buffer is filled front to back; returns the bytes placed in the buffer so far as well *)
-Fixpoint read_exact (fuel : nat) (r : sreader) (need : nat) (got : list Z) : (list Z * option ioerr) * sreader :=
+(** [io_read_exact]: the buffer is filled front to back; returns the bytes placed in the buffer so far as well *)
+Fixpoint io_read_exact (fuel : nat) (r : sreader) (need : nat) (got : list Z) : (list Z * option ioerr) * sreader :=
   match need with
   | O => ((got, None), r)
   | _ =>
@@ -35,8 +35,8 @@ Fixpoint read_exact (fuel : nat) (r : sreader) (need : nat) (got : list Z) : (li
       | S f =>
           match sr_read r need with
           | (inl [], r') => ((got, Some EUnexpectedEof), r')
-          | (inl bytes, r') => read_exact f r' (need - length bytes) (got ++ bytes)
-          | (inr EInterrupted, r') => read_exact f r' need got
+          | (inl bytes, r') => io_read_exact f r' (need - length bytes) (got ++ bytes)
+          | (inr EInterrupted, r') => io_read_exact f r' need got
           | (inr e, r') => ((got, Some e), r')
           end
       end
@@ -44,23 +44,23 @@ Fixpoint read_exact (fuel : nat) (r : sreader) (need : nat) (got : list Z) : (li
 
 (** [Take] *)
 Record taker := { tk_inner : sreader; tk_limit : Z }.
-Definition take_read (t : taker) (space : nat) : (list Z + ioerr) * taker :=
+Definition io_take_read (t : taker) (space : nat) : (list Z + ioerr) * taker :=
   if tk_limit t =? 0 then (inl [], t)
   else
-    let at_most := Nat.min (Z.to_nat (tk_limit t)) space in
+    let at_most := Z.to_nat (Z.min (tk_limit t) (Z.of_nat space)) in
     match sr_read (tk_inner t) at_most with
     | (inl bytes, r') => (inl bytes, {| tk_inner := r'; tk_limit := tk_limit t - Z.of_nat (length bytes) |})
     | (inr e, r') => (inr e, {| tk_inner := r'; tk_limit := tk_limit t |})
     end.
 
 (** [read_to_end] through a [Take] with a 16 KiB scratch buffer: errors (including Interrupted) abort *)
-Fixpoint take_read_to_end (fuel : nat) (t : taker) (out : list Z) : (list Z * option ioerr) * taker :=
+Fixpoint io_take_read_to_end (fuel : nat) (t : taker) (out : list Z) : (list Z * option ioerr) * taker :=
   match fuel with
   | O => ((out, Some EOther), t)
   | S f =>
-      match take_read t (Z.to_nat 16384) with
+      match io_take_read t (Z.to_nat 16384) with
       | (inl [], t') => ((out, None), t')
-      | (inl bytes, t') => take_read_to_end f t' (out ++ bytes)
+      | (inl bytes, t') => io_take_read_to_end f t' (out ++ bytes)
       | (inr e, t') => ((out, Some e), t')
       end
   end.
@@ -78,7 +78,7 @@ Definition sw_write (w : swriter) (buf : list Z) : (nat + ioerr) * swriter :=
   | WFail :: t => (inr EOther, {| sw_out := sw_out w; sw_script := t |})
   end.
 
-Fixpoint write_all (fuel : nat) (w : swriter) (buf : list Z) : option ioerr * swriter :=
+Fixpoint io_write_all (fuel : nat) (w : swriter) (buf : list Z) : option ioerr * swriter :=
   match buf with
   | [] => (None, w)
   | _ =>
@@ -87,8 +87,8 @@ Fixpoint write_all (fuel : nat) (w : swriter) (buf : list Z) : option ioerr * sw
       | S f =>
           match sw_write w buf with
           | (inl O, w') => (Some EWriteZero, w')
-          | (inl n, w') => write_all f w' (skipn n buf)
-          | (inr EInterrupted, w') => write_all f w' buf
+          | (inl n, w') => io_write_all f w' (skipn n buf)
+          | (inr EInterrupted, w') => io_write_all f w' buf
           | (inr e, w') => (Some e, w')
           end
       end
